@@ -32,6 +32,7 @@ const (
 	PSlicedPayloads
 	PReceiverStall
 	PSenderReconnected
+	PPrelude
 )
 
 var ProbeNames = map[int]string{
@@ -50,6 +51,7 @@ var ProbeNames = map[int]string{
 	PSlicedPayloads:         "payloads_are_adjacent_subslices_of_one_buffer",
 	PReceiverStall:          "receiver_not_reading_for_seconds_while_several_senders_send",
 	PSenderReconnected:      "sender_opened_a_further_connection_on_its_own",
+	PPrelude:                "other_transports_connected_and_closed_twice_before_the_run",
 }
 
 const maxLen = 0x1FFFF
@@ -111,6 +113,7 @@ type plan struct {
 	segMode   int // -1 from the choice stream, 0 whole, 1 byte by byte
 	window    int
 	quiet     bool
+	prelude   bool  // before the run proper, two other transports are connected and closed, one of them twice
 	sliced    bool  // the sender's payloads are adjacent sub-slices of one buffer (spare capacity behind each of them)
 	recvStall int64 // several senders: the receiver does not read for this long at first (the window fills up)
 }
@@ -193,6 +196,22 @@ func genPlan(o hx.Opts) *plan {
 	for i := range lens2 {
 		lens2[i] = genLen(false)
 	}
+	// size histories: in a third of the runs every frame after the first is a few bytes longer (or shorter) than the
+	// longest one sent before it on the same connection (buffers that grow with the traffic)
+	if hist, hd := hx.G(3), hx.G(1<<12); hist == 0 {
+		maxSoFar := lens[0]
+		for i := 1; i < len(lens); i++ {
+			if (hd>>uint(i))&1 == 1 && maxSoFar < 60000 {
+				lens[i] = maxSoFar + 1 + (hd>>uint(2*i))%4
+				if (hd>>uint(i+6))&1 == 1 && maxSoFar > 8 {
+					lens[i] = maxSoFar - 1 - (hd>>uint(2*i))%4
+				}
+			}
+			if lens[i] > maxSoFar && lens[i] <= maxLen {
+				maxSoFar = lens[i]
+			}
+		}
+	}
 	n := 1 + hx.G(maxFrames)
 	n2 := 1 + hx.G(maxFrames)
 	p.lens = append(p.lens, lens[:n]...)
@@ -207,6 +226,7 @@ func genPlan(o hx.Opts) *plan {
 			}
 		}
 	}
+	p.prelude = hx.G(4) == 0
 	p.sliced = hx.G(4) == 0
 	p.recvStall = [...]int64{0, 0, 3e9, 10e9}[hx.G(4)]
 	p.v6 = hx.G(5) == 0
@@ -668,6 +688,18 @@ func Run(seed uint64, index int64, o hx.Opts) *hx.Result {
 				frames = append(frames, legal[i])
 			}
 			return
+		}
+		if pl.prelude && (pl.wiring == WirePair || pl.wiring == WireDuplex || pl.wiring == WireMulti) {
+			// other transports lived and died in this process before: whatever they handed back to package-level
+			// state (pools, registries) when they were closed -- one of them twice -- must not couple the
+			// transports of this run
+			t0, t1 := transport.NewTransport("nbt"), transport.NewTransport("nbt")
+			if t0.Connect(xIP, 139) == nil && t1.Connect(xIP, 139) == nil {
+				t0.Close()
+				t0.Close()
+				t1.Close()
+				rt.Probe(PPrelude)
+			}
 		}
 		switch pl.wiring {
 		case WireSUTRecv:
